@@ -93,37 +93,42 @@ def get_use_tree(
         use_dict_mod = use_dict.get(use_stmnt.mod_name)
         if use_dict_mod is not None:
             old_len = len(use_dict_mod.only_list)
+            changed = False
             if old_len > 0 and merged_use_list:
-                only_len = old_len
                 for only_name in merged_use_list:
-                    use_dict_mod.only_list.add(only_name)
-                    if len(use_dict_mod.only_list) == only_len:
-                        continue
-                    only_len = len(use_dict_mod.only_list)
-                    new_rename = merged_rename.get(only_name)
-                    if new_rename is None:
-                        continue
+                    if only_name not in use_dict_mod.only_list:
+                        use_dict_mod.only_list.add(only_name)
+                        changed = True
                     # Keep the renames collected from the other USE statements
-                    use_dict_mod.rename_map[only_name] = new_rename
-                    use_dict[use_stmnt.mod_name] = use_dict_mod
-            else:
-                # The whole module is visible, local names stay valid
+                    new_rename = merged_rename.get(only_name)
+                    if (
+                        new_rename is not None
+                        and use_dict_mod.rename_map.get(only_name) != new_rename
+                    ):
+                        use_dict_mod.rename_map[only_name] = new_rename
+                        changed = True
+            elif old_len > 0:
+                # The whole module is visible now, local names stay valid
                 use_dict[use_stmnt.mod_name] = Use(
                     use_stmnt.mod_name,
                     rename_map={**use_dict_mod.rename_map, **merged_rename},
                 )
-            # Skip if we have already visited module with the same only list,
-            # but descend again when a restricted module became fully visible
-            if old_len == len(use_dict_mod.only_list) and (
-                old_len == 0 or merged_use_list
-            ):
+                changed = True
+            else:
+                # The whole module is visible already, local names are added
+                for only_name, new_rename in merged_rename.items():
+                    if use_dict_mod.rename_map.get(only_name) != new_rename:
+                        use_dict_mod.rename_map[only_name] = new_rename
+                        changed = True
+            # Skip if we have already visited module with the same only list
+            if not changed:
                 continue
         else:
             if type(use_stmnt) is Use:
                 use_dict[use_stmnt.mod_name] = Use(
                     mod_name=use_stmnt.mod_name,
                     only_list=set(merged_use_list),
-                    rename_map=merged_rename,
+                    rename_map=dict(merged_rename),
                 )
             elif type(use_stmnt) is Import:
                 use_dict[use_stmnt.mod_name] = Import(
